@@ -826,6 +826,181 @@ Proof.
   rewrite Hu. intros Hnew. apply (hq_new_not_held _ _ _ Hnew). exact HuS.
 Qed.
 
+(* ---- the request in batches ---- *)
+Lemma hq_collect_ok_all : forall rs a, hq_collect rs = HROk a ->
+  forall r, In r rs -> exists a', r = HROk a' /\ incl a' a.
+Proof.
+  induction rs as [|r0 rs IH]; intros a Hc r Hin; [contradiction|].
+  simpl in Hc. destruct r0 as [|a0]; [discriminate|].
+  destruct (hq_collect rs) as [|b] eqn:Eb; [discriminate|]. inversion Hc; subst a. clear Hc.
+  destruct Hin as [<-|Hin].
+  - exists a0. split; [reflexivity|]. intros x Hx. apply in_or_app. left. exact Hx.
+  - destruct (IH b eq_refl r Hin) as (a' & -> & Hi). exists a'. split; [reflexivity|].
+    intros x Hx. apply in_or_app. right. apply Hi. exact Hx.
+Qed.
+
+Lemma hq_collect_ok_in : forall rs a x, hq_collect rs = HROk a -> In x a ->
+  exists a', In (HROk a') rs /\ In x a'.
+Proof.
+  induction rs as [|r0 rs IH]; intros a x Hc Hx.
+  - simpl in Hc. inversion Hc; subst a. contradiction.
+  - simpl in Hc. destruct r0 as [|a0]; [discriminate|].
+    destruct (hq_collect rs) as [|b] eqn:Eb; [discriminate|]. inversion Hc; subst a. clear Hc.
+    apply in_app_or in Hx as [Hx|Hx].
+    + exists a0. split; [left; reflexivity|exact Hx].
+    + destruct (IH b x eq_refl Hx) as (a' & Hin & Hx'). exists a'. split; [right; exact Hin|exact Hx'].
+Qed.
+
+Lemma hq_collect_all_ok : forall rs, (forall r, In r rs -> exists a', r = HROk a') ->
+  exists a, hq_collect rs = HROk a.
+Proof.
+  induction rs as [|r0 rs IH]; intros Hall; [exists []; reflexivity|].
+  destruct (Hall r0 (or_introl eq_refl)) as (a0 & ->).
+  destruct (IH (fun r Hr => Hall r (or_intror Hr))) as (b & Hb).
+  exists (a0 ++ b). simpl. rewrite Hb. reflexivity.
+Qed.
+
+(* whatever the partition of the request: a node is marked seen only if EVERY batch was answered
+   and no answer holds the node's text - in particular not the answer to the batch the node's
+   text was sent in *)
+Definition hq_batched_seen_only_if_reported_stmt : Prop :=
+  forall (ex : list hq_exchange) (t : item) (i : nat) (n n' : item) (ty : kind),
+  concat (map fst ex) = hq_sent t ->
+  nth_error (work_nodes (max_depth t) None t) i = Some (n, ty) ->
+  nth_error (nodes_at (max_depth t) (snd (hq_seencheck_ex ex t))) i = Some n' ->
+  n' = n
+  \/ (n' = mark_seen n
+      /\ (forall b r, In (b, r) ex -> exists a, r = HROk a /\ ~ In (url_of n) a)
+      /\ (is_fresh n = true ->
+          exists b a, In (b, HROk a) ex /\ In (url_of n, ty) b /\ ~ In (url_of n) a)).
+
+Lemma hq_batched_seen_only_if_reported_lemma : hq_batched_seen_only_if_reported_stmt.
+Proof.
+  intros ex t i n n' ty Hpart Hn Hn'. unfold hq_seencheck_ex in Hn'.
+  destruct (hq_seen_only_if_reported_lemma _ t i n n' ty Hn Hn') as [->|(-> & answer & Hc & Hnot & Hsent)];
+    [left; reflexivity|].
+  right. split; [reflexivity|].
+  assert (Hall : forall b r, In (b, r) ex -> exists a, r = HROk a /\ ~ In (url_of n) a).
+  { intros b r Hin.
+    destruct (hq_collect_ok_all _ _ Hc r) as (a' & -> & Hi).
+    { apply in_map_iff. exists (b, r). split; [reflexivity|exact Hin]. }
+    exists a'. split; [reflexivity|]. intros Hx. apply Hnot. apply Hi. exact Hx. }
+  split; [exact Hall|].
+  intros Hf. specialize (Hsent Hf). rewrite <- Hpart in Hsent.
+  apply in_concat in Hsent as (b & Hb & Hin). apply in_map_iff in Hb as ([b' r] & Eb & Hex).
+  simpl in Eb. subst b'. destruct (Hall b r Hex) as (a & -> & Ha).
+  exists b, a. split; [exact Hex|]. split; [exact Hin|exact Ha].
+Qed.
+
+(* ... and it IS marked when every batch was answered and no answer holds its text *)
+Definition hq_batched_seen_if_reported_stmt : Prop :=
+  forall (ex : list hq_exchange) (t : item) (i : nat) (n : item) (ty : kind),
+  max_depth t <> 0 -> hq_sent t <> [] ->
+  (forall b r, In (b, r) ex -> exists a, r = HROk a /\ ~ In (url_of n) a) ->
+  nth_error (work_nodes (max_depth t) None t) i = Some (n, ty) ->
+  nth_error (nodes_at (max_depth t) (snd (hq_seencheck_ex ex t))) i = Some (mark_seen n).
+
+Lemma hq_batched_seen_if_reported_lemma : hq_batched_seen_if_reported_stmt.
+Proof.
+  intros ex t i n ty Hd Hs Hall Hn. unfold hq_seencheck_ex.
+  destruct (hq_collect_all_ok (map snd ex)) as (answer & Hc).
+  { intros r Hr. apply in_map_iff in Hr as ([b r'] & Er & Hin). simpl in Er. subst r'.
+    destruct (Hall b r Hin) as (a & -> & _). exists a. reflexivity. }
+  apply (hq_seen_if_reported_lemma _ t i n ty answer Hd Hs Hc Hn).
+  intros Hx. destruct (hq_collect_ok_in _ _ _ Hc Hx) as (a' & Hin & Hx').
+  apply in_map_iff in Hin as ([b r] & Er & Hex). simpl in Er. subst r.
+  destruct (Hall b _ Hex) as (a & Ea & Ha). inversion Ea; subst a. exact (Ha Hx').
+Qed.
+
+(* the reference HQ: what it answers depends on the set it holds, not on the list *)
+Lemma mem_app x l1 l2 : mem x (l1 ++ l2) = mem x l1 || mem x l2.
+Proof. unfold mem. apply existsb_app. Qed.
+
+Lemma hq_new_ext : forall sent S S', (forall x, mem x S = mem x S') -> hq_new S sent = hq_new S' sent.
+Proof.
+  induction sent as [|v sent IH]; intros S S' He; [reflexivity|].
+  simpl. rewrite <- (He v). destruct (mem v S); [apply IH; exact He|].
+  f_equal. apply IH. intros x. change (mem x (v :: S)) with ((x =? v)%N || mem x S).
+  change (mem x (v :: S')) with ((x =? v)%N || mem x S'). rewrite He. reflexivity.
+Qed.
+
+(* the answer to a request is the answer to its first part followed by the answer to the rest,
+   given to the HQ that holds the first part *)
+Lemma hq_new_app : forall a S b, hq_new S (a ++ b) = hq_new S a ++ hq_new (rev a ++ S) b.
+Proof.
+  induction a as [|v a IH]; intros S b; [reflexivity|].
+  simpl. destruct (mem v S) eqn:Em.
+  - rewrite IH. f_equal. apply hq_new_ext. intros x.
+    cbn [rev]. rewrite <- app_assoc, !mem_app.
+    change (mem x [v]) with ((x =? v)%N || false).
+    destruct (mem x (rev a)); [reflexivity|].
+    destruct (N.eqb_spec x v) as [E|_]; [rewrite E, Em|]; reflexivity.
+  - rewrite IH. simpl. rewrite <- app_assoc. reflexivity.
+Qed.
+
+Lemma hq_ref_parts_concat : forall parts S,
+  hq_collect (map snd (fst (hq_ref_parts S parts))) = fst (hq_ref S (concat parts))
+  /\ snd (hq_ref_parts S parts) = snd (hq_ref S (concat parts))
+  /\ map fst (fst (hq_ref_parts S parts)) = parts.
+Proof.
+  induction parts as [|p parts IH]; intros S; [repeat split|].
+  cbn [hq_ref_parts hq_ref]. specialize (IH (rev (map fst p) ++ S)).
+  destruct (hq_ref_parts (rev (map fst p) ++ S) parts) as [ex S2]. cbn [fst snd] in *.
+  destruct IH as (Hc & HS & Hm). cbn [map snd fst hq_collect concat]. rewrite Hc. cbn [hq_ref fst snd] in *.
+  split; [|split].
+  - rewrite map_app, hq_new_app. reflexivity.
+  - rewrite HS, map_app, rev_app_distr, app_assoc. reflexivity.
+  - rewrite Hm. reflexivity.
+Qed.
+
+(* the outcome of a pass does not depend on how the request is cut into batches *)
+Definition hq_batching_irrelevant_stmt : Prop :=
+  forall (split : list (N * kind) -> list (list (N * kind))),
+  (forall l, concat (split l) = l) ->
+  forall (S : list N) (t : item), hq_step_parts split S t = hq_step S t.
+
+Lemma hq_batching_irrelevant_lemma : hq_batching_irrelevant_stmt.
+Proof.
+  intros split Hsplit S t. unfold hq_step_parts, hq_step.
+  destruct (max_depth t); [reflexivity|]. destruct (hq_sent t) as [|x r]; [reflexivity|].
+  destruct (hq_ref_parts_concat (split (x :: r)) S) as (Hc & HS & _).
+  destruct (hq_ref_parts S (split (x :: r))) as [ex S']. cbn [fst snd] in *.
+  rewrite Hsplit in Hc, HS. destruct (hq_ref S (x :: r)) as [rep S0]. cbn [fst snd] in *. subst S' rep.
+  unfold hq_seencheck_ex. reflexivity.
+Qed.
+
+(* batches of --hq-batch-size entries are such a partition *)
+Lemma chunks_f_spec {A} (b : nat) : b <> 0 -> forall fuel (l : list A), length l <= fuel ->
+  concat (chunks_f fuel b l) = l
+  /\ Forall (fun p => p <> [] /\ length p <= b) (chunks_f fuel b l).
+Proof.
+  intros Hb. induction fuel as [|f IH]; intros l Hl.
+  - destruct l; [split; [reflexivity|constructor]|simpl in Hl; lia].
+  - destruct l as [|x l']; [split; [reflexivity|constructor]|].
+    change (chunks_f (S f) b (x :: l')) with (firstn b (x :: l') :: chunks_f f b (skipn b (x :: l'))).
+    remember (x :: l') as l eqn:El.
+    assert (Hlen : length (skipn b l) <= f).
+    { rewrite skipn_length. subst l. cbn [length] in *. lia. }
+    destruct (IH _ Hlen) as [Hc Hf]. split.
+    + cbn [concat]. rewrite Hc. apply firstn_skipn.
+    + constructor; [|exact Hf]. split.
+      * destruct b as [|b']; [contradiction|]. subst l. discriminate.
+      * apply firstn_le_length.
+Qed.
+
+Definition hq_batch_size_irrelevant_stmt : Prop :=
+  forall (b : nat), b <> 0 ->
+  (forall l : list (N * kind), concat (chunks b l) = l /\ Forall (fun p => p <> [] /\ length p <= b) (chunks b l))
+  /\ forall (S : list N) (t : item), hq_step_parts (chunks b) S t = hq_step S t.
+
+Lemma hq_batch_size_irrelevant_lemma : hq_batch_size_irrelevant_stmt.
+Proof.
+  intros b Hb.
+  assert (Hs : forall l : list (N * kind), concat (chunks b l) = l /\ Forall (fun p => p <> [] /\ length p <= b) (chunks b l)).
+  { intros l. apply (chunks_f_spec b Hb). apply le_n. }
+  split; [exact Hs|]. apply hq_batching_irrelevant_lemma. intros l. apply (proj1 (Hs l)).
+Qed.
+
 (* ---- the preprocess statements for the two seen-stores ---- *)
 Definition no_two_nonseed_same_url_stmt : Prop :=
   forall (hash : N -> N) (s : store) (t : item) (s' : store) (t' : item),
@@ -931,4 +1106,23 @@ Example hq_nonvacuous :
   /\ fst (hq_ref [7] (hq_sent ex_page)) = HROk [1]
   /\ map st_of (nodes_at 1 (snd (hq_step [7] ex_page))) = [Fresh; Seen; Fresh]
   /\ map st_of (nodes_at 1 (snd (hq_step (hq_run [] [ex_page]) ex_page))) = [Seen; Seen; Seen].
+Proof. vm_compute. repeat split. Qed.
+
+(* the same pass put to the HQ in batches of 2 and of 1: the duplicate of URL 1 travels in a later
+   batch, its batch answers "held", yet both nodes are fetched (the first batch returned it);
+   URL 7, held from the start, is skipped; an assets page cut one-over (3 = 2 + 1) and into
+   singletons gives what the single request gives *)
+Definition ex_page5 : item :=
+  Node (Info 0 20 GotChildren false 0 0) [leaf 1 1 Fresh; leaf 2 2 Fresh; leaf 3 3 Fresh; leaf 4 7 Fresh; leaf 5 5 Fresh].
+Example hq_batched_nonvacuous :
+  chunks 2 (hq_sent ex_page) = [[(1, KAsset); (7, KAsset)]; [(1, KAsset)]]
+  /\ fst (hq_ref_parts [7] (chunks 2 (hq_sent ex_page)))
+     = [([(1, KAsset); (7, KAsset)], HROk [1]); ([(1, KAsset)], HROk [])]
+  /\ map st_of (nodes_at 1 (snd (hq_step_parts (chunks 2) [7] ex_page))) = [Fresh; Seen; Fresh]
+  /\ map st_of (nodes_at 1 (snd (hq_step_parts (chunks 1) [7] ex_page))) = [Fresh; Seen; Fresh]
+  /\ map (@length _) (chunks 2 (hq_sent ex_page5)) = [2; 2; 1]%nat
+  /\ map snd (fst (hq_ref_parts [7] (chunks 2 (hq_sent ex_page5)))) = [HROk [1; 2]; HROk [3]; HROk [5]]
+  /\ map st_of (nodes_at 1 (snd (hq_step_parts (chunks 2) [7] ex_page5))) = [Fresh; Fresh; Fresh; Seen; Fresh]
+  /\ map st_of (nodes_at 1 (snd (hq_seencheck_ex [([(1, KAsset); (2, KAsset)], HROk [1; 2]); ([(3, KAsset)], HRErr)] ex_page5)))
+     = [Fresh; Fresh; Fresh; Fresh; Fresh].
 Proof. vm_compute. repeat split. Qed.
